@@ -121,6 +121,10 @@ class Prop(common.PropertyCheck):
             subset = [o for o in OPT if rng.random() < 0.6]
             ill = [o for o in subset if o in ('$TIMESTEP', 'TIMETICKS', '$BTIM', '$ETIM', '$DATE', '$PnV', '$PnG', 'BD$WORDn', 'CytekPnnG') and rng.random() < 0.3]
             yield self.make_case(rng, subset, ill, timech=rng.choice([None, None, 'Time', 'TIME', 'tImE', 'two']), form={'r': rng.randrange(1000)})
+        for i in range(self.budget(30, 300)):
+            c = self.make_case(rng, [o for o in OPT if rng.random() < 0.5], timech=[None, 'Time'][i % 2])
+            c.update({'dt': 'F', 'frac_range': True, 'D': [3, 3, 11][i % 3]})
+            yield c
 
     def spec_of(self, case):
         import random
@@ -163,8 +167,12 @@ class Prop(common.PropertyCheck):
         pne = {'1': '0,0', '2': '4,0', '3': '0,0' if case['timech'] else '3.5,1'}
         for k in range(4, D + 1):
             pne[str(k)] = ['0,0', '4.0,0.0', '5,1', '3,0'][k % 4]
+        ranges = [1024, 4096, 1000] + [1024] * (D - 3)
+        if case.get('frac_range') and dt == 'F':
+            # floating-point files may declare a range that is not a whole number
+            ranges = (['262143.5', '1000.25', '4194303.75', '1.5', '0.5', '99.9'] * D)[case['seed'] % 3:][:D]
         return {'version': case['version'], 'delim': '|', 'datatype': dt, 'byteord': '1,2,3,4', 'widths': [16 if dt == 'I' else 32] * D,
-                'ranges': [1024, 4096, 1000] + [1024] * (D - 3), 'events': ev, 'names': names, 'pne': pne, 'extra': extra}
+                'ranges': ranges, 'events': ev, 'names': names, 'pne': pne, 'extra': extra}
 
     def run_impl(self, case):
         spec = self.spec_of(case)
